@@ -452,13 +452,13 @@ pub fn bodies(tier: &str) -> Vec<BodySpec> {
     let q = tier == "quick";
     let b = |body: CounterBody, bound: usize, secs: f64| BodySpec { body: Arc::new(body), bound, secs };
     let mut v = vec![
-        b(CounterBody { name: "single-writer: 2 x (tx get insert commit)", occ: false, threads: 2, helper: false }, 2, if q { 5.0 } else { 120.0 }),
-        b(CounterBody { name: "single-writer: 2 x fetch_update helper", occ: false, threads: 2, helper: true }, 2, if q { 4.0 } else { 120.0 }),
-        b(CounterBody { name: "optimistic: 2 x fetch_update helper (retry loop)", occ: true, threads: 2, helper: true }, if q { 1 } else { 2 }, if q { 5.0 } else { 200.0 }),
+        b(CounterBody { name: "single-writer: 2 x (tx get insert commit)", occ: false, threads: 2, helper: false }, if q { 2 } else { 3 }, if q { 5.0 } else { 200.0 }),
+        b(CounterBody { name: "single-writer: 2 x fetch_update helper", occ: false, threads: 2, helper: true }, if q { 2 } else { 3 }, if q { 4.0 } else { 200.0 }),
+        b(CounterBody { name: "optimistic: 2 x fetch_update helper (retry loop)", occ: true, threads: 2, helper: true }, if q { 1 } else { 3 }, if q { 5.0 } else { 300.0 }),
     ];
     if !q {
         v.push(b(CounterBody { name: "single-writer: 3 x (tx get insert commit)", occ: false, threads: 3, helper: false }, 2, 300.0));
-        v.push(b(CounterBody { name: "optimistic: 2 x (tx get insert commit)", occ: true, threads: 2, helper: false }, 2, 200.0));
+        v.push(b(CounterBody { name: "optimistic: 2 x (tx get insert commit)", occ: true, threads: 2, helper: false }, 3, 300.0));
     }
     v
 }
@@ -471,9 +471,9 @@ pub fn run(tier: &str) -> i32 {
     let mut all = std::collections::HashSet::new();
     let mut exhaustive = true;
     for (name, kind, full, depth, secs) in [
-        ("single-writer", DbKind::SingleWriter, false, if q { 4 } else { 5 }, if q { 13.0 } else { 400.0 }),
-        ("optimistic", DbKind::Optimistic, false, if q { 4 } else { 5 }, if q { 13.0 } else { 400.0 }),
-        ("single-writer/full-alphabet", DbKind::SingleWriter, true, if q { 3 } else { 4 }, if q { 5.0 } else { 300.0 }),
+        ("single-writer", DbKind::SingleWriter, false, if q { 4 } else { 6 }, if q { 13.0 } else { 600.0 }),
+        ("optimistic", DbKind::Optimistic, false, if q { 4 } else { 6 }, if q { 13.0 } else { 600.0 }),
+        ("single-writer/full-alphabet", DbKind::SingleWriter, true, if q { 3 } else { 5 }, if q { 5.0 } else { 400.0 }),
     ] {
         let prop = TxLocalProp { kind, alphabet: alphabet(full) };
         let t = Instant::now();
